@@ -20,6 +20,7 @@ World states come from seeded histories of public mutators.
 import copy
 import operator
 import random
+import re
 
 import egsim  # noqa: F401
 from egsim import classes as C
@@ -233,6 +234,9 @@ class Harness:
             pairs.append((hex(id(obj)), lab))
         for needle, lab in sorted(pairs, key=lambda p: -len(p[0])):
             text = text.replace(needle, f"@{lab}")
+        # whatever address is left belongs to something that is not a graph
+        # object (the repr of an iterator kept as an attribute value)
+        text = re.sub(r"0x[0-9a-fA-F]{6,}", "@addr", text)
         return text
 
     def norm_net(self, net):
